@@ -96,6 +96,31 @@ func classifyFailure(kind string, r sim.TxRes) (class string, wrote bool) {
 	return "handler+fee-failed", false
 }
 
+// olvmShape names what an OLVM transaction did: VM errors (revert, out of gas, ...) are reported
+// with code 0 by the handler (the nonce moves, gas is charged), consensus pre-check failures with a non-zero code.
+func olvmShape(r sim.TxRes, d abci.ResponseDeliverTx) string {
+	if r.Code != 0 {
+		for _, m := range []string{"nonce too low", "insufficient funds", "intrinsic gas", "invalid chain id", "wrong memo", "not enabled", "mismatch sender", "invalid sender"} {
+			if strings.Contains(strings.ToLower(r.Log), m) {
+				return "olvm:rejected:" + strings.ReplaceAll(m, " ", "-")
+			}
+		}
+		return "olvm:rejected:other"
+	}
+	for _, ev := range d.Events {
+		for _, a := range ev.Attributes {
+			if string(a.Key) == "tx.error" {
+				v := string(a.Value)
+				if len(v) > 24 {
+					v = v[:24]
+				}
+				return "olvm:code0-vm-error:" + strings.ReplaceAll(v, " ", "-")
+			}
+		}
+	}
+	return "olvm:executed"
+}
+
 // engineeredOutcome compares what an engineered transaction did on replica A with what it was built for.
 func engineeredOutcome(note, kind string, r sim.TxRes) string {
 	parts := strings.Split(note, ":")
@@ -300,6 +325,9 @@ func execute(h *run.H, tr *hist.Trace, draw func(w *hist.World, scoutR *sim.Repl
 			debugf("h=%d A tx#%d %s code=%d gas=%d/%d log=%.200s\n", bA.Height, k, kind, r.Code, r.GasUsed, r.GasWanted, r.Log)
 			if k < len(txs) && strings.HasPrefix(txs[k].Note, "eng:") {
 				st.feats[engineeredOutcome(txs[k].Note, kind, r)]++
+			}
+			if kind == "OLVM" && k < len(resA.Deliver) {
+				st.feats[olvmShape(r, resA.Deliver[k])]++
 			}
 			if r.Code != 0 {
 				class, wrote := classifyFailure(kind, r)
@@ -690,6 +718,7 @@ func TestC06(t *testing.T) {
 	defer h.Finish()
 	h.SetRule("generated genesis x block history with many failing transactions (hostile value pools 20%, inapplicable choices 25%, plus engineered failures: Fee.Gas one below the gas a scout replica measured for the same transaction at the same position, a fresh account spending balance - fee + 1, OLVM nonce / revert / out-of-gas shapes from the olvm profile); replica A executes every block, twin B the same block without the transactions that returned a non-zero code on A; non-trivial = at least one failed transaction whose session held writes when it was discarded, judged from the DeliverTx response: (a) no fee-step log and GasUsed > 0, i.e. the handler failed and the fee step, which txDeliverer runs regardless, then debited the payer and credited the fee pool inside the session, or (b) the handler part of the log is empty and the fee step failed (gas overflow or unpayable fee) after a successful handler of a native kind; distinct by trace hash")
 	maxBlocks := h.Scale(28, 60)
+	saved := false
 	rapid.Check(t, func(rt *rapid.T) {
 		p := hist.GenParams(rt, fmt.Sprint(h.Seed))
 		p.MaxGas = -1 // unlimited block gas: the running gas total cannot change outcomes
@@ -758,6 +787,15 @@ func TestC06(t *testing.T) {
 			classes = append(classes, "non-trivial")
 		}
 		h.Eval(ntKey, classes, tr.Summary())
+		// VERIF_C06_SAVE=<dir>: keep the first passing case that rolled back writes at every depth as a regression replay
+		if dir := os.Getenv("VERIF_C06_SAVE"); dir != "" && out == nil && !saved && st.feats["fail:fee-gas-overflow"] > 0 && st.feats["fail:fee-unpayable"] > 0 && st.feats["fail:handler+fee-charged"] > 2 && st.feats["olvm-pair:vm-precheck-then-executed-in-one-block"] > 0 && st.blocks <= 16 {
+			saved = true
+			cb, _ := json.Marshal(tr)
+			f := run.Failure{Property: "C06", Test: "TestReplay", Oracle: "seed", Message: "generated history kept as a regression input: failures in Validate, in handlers after the fee was charged, in the fee step (gas one below the measured use, fee short by one unit) and in the OLVM pre-checks followed by an executed OLVM transaction", Sig: "C06/seed", Case: cb}
+			fb, _ := json.MarshalIndent(f, "", " ")
+			_ = os.MkdirAll(dir, 0o755)
+			_ = os.WriteFile(dir+"/seed-generated-failures-at-every-depth.json", fb, 0o644)
+		}
 		h.Class("txs-failed", st.failed)
 		h.Class("txs-failed-after-session-writes", st.nt)
 		h.Class("txs-succeeded", st.okTxs)
